@@ -173,6 +173,40 @@ Fixpoint reference_strip_from (m : smode) (s : list Z) : list Z :=
   end.
 Definition reference_strip (s : list Z) : list Z := reference_strip_from Normal s.
 
+(* ---- stripping comments, said as a grammar: a text is a sequence of plain bytes, string literals,
+        line comments and block comments; [strips s o]: o is s without its comments.  (The reference
+        machine above is the executable form; JsonProofsStrip.strips_sound relates the two.) ---- *)
+(* the inside of a literal up to its closing quote: bytes other than quote and backslash, or a backslash
+   and the byte it escapes *)
+Inductive lit_body : list Z -> Prop :=
+| lb_nil : lit_body []
+| lb_plain : forall c t, c <> 34 -> c <> 92 -> lit_body t -> lit_body (c :: t)
+| lb_esc : forall e t, lit_body t -> lit_body (92 :: e :: t).
+(* ... of a literal that the end of the text cuts short (possibly right behind a backslash) *)
+Inductive lit_open : list Z -> Prop :=
+| lo_nil : lit_open []
+| lo_bs : lit_open [92]
+| lo_plain : forall c t, c <> 34 -> c <> 92 -> lit_open t -> lit_open (c :: t)
+| lo_esc : forall e t, lit_open t -> lit_open (92 :: e :: t).
+(* a block comment body: no star-slash inside *)
+Fixpoint no_close (b : list Z) : bool :=
+  match b with
+  | [] => true
+  | c :: t => negb ((c =? 42) && (hd0 t =? 47)) && no_close t
+  end.
+Definition no_break (b : list Z) : bool := forallb (fun c => negb (brk c)) b.
+
+Inductive strips : list Z -> list Z -> Prop :=
+| st_nil : strips [] []
+| st_plain : forall c s o, c <> 34 -> (c = 47 -> hd0 s <> 47 /\ hd0 s <> 42) -> strips s o -> strips (c :: s) (c :: o)
+| st_string : forall l s o, lit_body l -> strips s o -> strips (34 :: l ++ 34 :: s) (34 :: l ++ 34 :: o)
+| st_string_open : forall l, lit_open l -> strips (34 :: l) (34 :: l)
+| st_line : forall b s o, no_break b = true -> (s = [] \/ brk (hd0 s) = true) -> strips s o ->
+    strips (47 :: 47 :: b ++ s) o                                   (* up to, not including, the line break *)
+| st_block : forall b s o, no_close b = true -> strips s o ->
+    strips (47 :: 42 :: b ++ 42 :: 47 :: s) (filter brk b ++ o)     (* its line breaks stay *)
+| st_block_open : forall b, no_close b = true -> strips (47 :: 42 :: b) (filter brk b).
+
 (* ---- what a string literal denotes: RFC 8259 section 7 with the code points written as UTF-8
         (RFC 3629); [s] is the text between the quotes.  None = the literal is not valid JSON
         (raw control character, unknown or truncated escape, unpaired surrogate): not judged. ---- *)
